@@ -61,9 +61,25 @@ Print Assumptions C07_no_orphan_files_after_recover.
    (internal/backend/user.go newUser / deleteAllMessagesMarkedDeleted / removeState, connector_updates.go applyMessageDeleted) *)
 Theorem C07_source_orders : startup_purge_before_sweep = true /\ startup_rows_before_files = true /\
   session_end_rows_before_files = true /\ conn_delete_releases_remote_id = true /\
-  commit_error_always_returned = true /\ conn_create_cleanup_keeps_error = true /\ recovery_move_marks_old_copy = true.
-Proof. exact (conj eq_refl (conj eq_refl (conj eq_refl (conj eq_refl (conj eq_refl (conj eq_refl eq_refl)))))). Qed.
+  commit_error_always_returned = true /\ conn_create_cleanup_keeps_error = true /\ recovery_move_marks_old_copy = true /\
+  redownload_refills_served_bytes = true /\ recovered_import_writes_new_id = true /\ failed_init_keeps_database = true.
+Proof. exact (conj eq_refl (conj eq_refl (conj eq_refl (conj eq_refl (conj eq_refl (conj eq_refl (conj eq_refl (conj eq_refl (conj eq_refl eq_refl))))))))). Qed.
 Print Assumptions C07_source_orders.
+
+(* a cache file is lost and the message is downloaded again: with the refill FOUND IN THE SOURCE the bytes served then are
+   served again by every later fetch (does not type-check when getLiteral refills the cache with other bytes) *)
+Theorem C07_refetch_after_cache_loss_stable : forall remote recovered served_form m id m1 b,
+  cs_fetch_refill remote recovered served_form redownload_refills_served_bytes m id = (m1, Some b) ->
+  cs_fetch_refill remote recovered served_form redownload_refills_served_bytes m1 id = (m1, Some b).
+Proof. exact refetch_stable. Qed.
+Print Assumptions C07_refetch_after_cache_loss_stable.
+
+(* a start that fails in database.Init for a reason other than a failed migration destroys nothing: the next start sees
+   what was acknowledged before (stated for the guard FOUND IN THE SOURCE) *)
+Theorem C07_failed_start_keeps_everything : forall remote recovered m,
+  cs_view remote recovered (cs_failed_start failed_init_keeps_database m) = cs_view remote recovered m.
+Proof. exact failed_start_keeps_view. Qed.
+Print Assumptions C07_failed_start_keeps_everything.
 
 (* the acknowledgement matches the database: with the error propagation FOUND IN THE SOURCE (wrapTx returns every commit
    error, the clean-up loop of applyMessagesCreated keeps the transaction's error) an operation that does not report an
